@@ -55,7 +55,7 @@ def main():
         code, out = sh(f"{PY} -m pytest -q -p no:cacheprovider 2>&1 | tail -1", cwd=wt, env=env)
         suite = out.strip()
         ran.append(f"suite with change: {suite}")
-        ok_suite = bool(re.search(r"1 failed, 1433 passed", suite))
+        ok_suite = bool(re.search(r"\b1434 passed", suite)) and "failed" not in suite
         demo_src = pathlib.Path(a.demo).read_text()
         demo_tmp = wt / "_demo.py"
         demo_tmp.write_text(demo_src.replace("/tmp/wt/" + a.prop, str(wt)))
